@@ -231,8 +231,8 @@ def evaluate_combos(case):
 
 @st.composite
 def combos_cases(draw):
-    k = draw(st.integers(1, 5))
-    manager = draw(st.sampled_from(["sums", "contents", "contents"]))
+    k = draw(st.sampled_from([1, 2, 3, 3, 4, 4, 5, 5, 5, 6]))
+    manager = draw(st.sampled_from(["sums", "sums", "contents", "contents", "contents"]))
 
     def array():
         style = draw(st.sampled_from(["free", "tied", "tied", "empty-bins"]))
@@ -290,7 +290,7 @@ def valid(case):
             and isinstance(case.get("lo2"), int) and isinstance(case.get("hi2"), int)
     if kind == "combos":
         b1, b2 = case.get("bins1"), case.get("bins2")
-        return isinstance(b1, list) and isinstance(b2, list) and len(b1) == len(b2) and 1 <= len(b1) <= 5
+        return isinstance(b1, list) and isinstance(b2, list) and len(b1) == len(b2) and 1 <= len(b1) <= 6
     return False
 
 
@@ -364,7 +364,7 @@ def legs(tier):
             "pairings and a tie in sums", enum=combos_scope, valid=valid, shrink=shrink, exhaustive=True,
             scope="2 managers x k<=3 x bins from a pool of 6"),
         Leg("combos-random", evaluate,
-            "hypothesis: both managers, 1-5 bins of 0-3 items valued 0..6, half of the arrays forced to contain two bins of equal sum and "
+            "hypothesis: both managers, 1-6 bins of 0-3 items valued 0..6, half of the arrays forced to contain two bins of equal sum and "
             "different contents; same oracle and rule", strategy=combos_cases(), n_quick=3000, n_thorough=60000, valid=valid,
             shrink=shrink, floor=0.3),
     ]
